@@ -415,7 +415,7 @@ func TestVerifC14(t *testing.T) {
 	defer r.Finish()
 
 	maxlen := vlib.Pick(r, 6, 8)
-	allperm := vlib.Pick(r, 6, 7) // batches up to this size: every permutation; larger: identity, reverse and their rotations
+	allperm := vlib.Pick(r, 5, 7) // batches up to this size: every permutation; larger: identity, reverse and their rotations
 
 	r.Rule("chain length 1..L x batch limit 1..length+1 x start {no previous map, previous map at height 4} x " +
 		"{no break, every single break at every position} x every combination of per-batch arrival permutations; " +
